@@ -45,13 +45,15 @@ RULE = (
     "free parameters or a fixed / limited / constrained parameter; distinct by case hash"
 )
 ASSUMPTIONS = [
-    "well-posed problems only: total covariance positive definite with cond <= 1e8 and reference Gauss-Newton normal matrix over the free parameters with cond <= 1e6 "
-    "at the truth (generator rejects and counts others); start values within 1 sigma_ref of the truth",
+    "well-posed problems only: total covariance positive definite with cond <= 1e8, reference Gauss-Newton normal matrix over the free parameters with cond <= 1e6 and model "
+    "linear to 25 % over one sigma_ref of every free parameter (|f(p + sigma e_i) - f(p) - sigma df/dp_i| <= 0.25 |sigma df/dp_i| in the metric of V) at the truth (generator rejects and "
+    "counts others; at the fitted optimum cond <= 1e7 and 50 %, else discarded); start values within 1 sigma_ref of the truth",
     "start values, initial step sizes (given explicitly in half of the cases, otherwise kafe2's own 0.1*|default| of the transformed model), limits, fixed values and "
     "constraint values / uncertainties are transformed with the problem — otherwise the minimiser legitimately walks a different path",
     "tolerances: cost / goodness of fit at common parameter points before fitting LINALG (1e-9 relative to |chi2| + |ln det V| + |2N ln s| + 1); after fitting OPTIM in units of "
-    "the reference sigma: |dp| <= 1e-2 sigma (iminuit) / 5e-2 sigma (scipy), errors / covariance / correlation / asymmetric errors / error band within 2e-2 relative "
-    "(the HESSE accuracy at cond <= 1e6), chi2 and cost within 1e-3 (iminuit) / 5e-3 (scipy); fixed parameters exactly",
+    "the reference sigma: |dp| <= 1e-2 sigma (iminuit) / 5e-2 sigma (scipy); errors, correlations, asymmetric errors within 2e-2 relative (covariance entries 4e-2 of "
+    "sqrt(C_ii C_jj), error band 3e-2) — for iminuit on a non-parabolic cost (nonlinear model, x or model-relative sources) 5e-2 instead of 2e-2, because Minuit2's HESSE at "
+    "strategy 1 refines its steps only until the second derivatives change by < 5 % (MnStrategy HessianG2Tolerance); chi2 and cost within 1e-3 (iminuit) / 5e-3 (scipy); fixed parameters exactly",
     "parameter uncertainties are compared only where they are defined at the 2e-2 level: not if a limited parameter is closer than 3 sigma_ref to one of its bounds (the reported "
     "sigma of a parameter resting on a limit is not defined) and not if the base fit's sqrt(diag(cov)) differs from the Gauss-Newton sigma_ref by more than 15 % (strongly non-parabolic "
     "cost: the second derivative changes by per cents over the 1e-2 sigma the optimum is allowed to move); values, chi2 and cost are compared in all cases (counted in notes)",
@@ -128,7 +130,7 @@ def floors(tier):
         "strata": ["|".join(s) for s in STRATA] + ["xy", "indexed", "multi", "linear", "nonlinear", "x-errors", "model-relative", "matrix-source", "active-limit", "constraint-matrix", "asym|iminuit"]
         + ([] if q else ["asym|scipy"]),
         "sets": {"family": 10, "par-perm-order": 8},
-        "distinct_nontrivial": 100 if q else 3000,
+        "distinct_nontrivial": 60 if q else 3000,
     }
 
 
@@ -328,6 +330,8 @@ def gen_problem(rng, tier, kind, minimizer, subset, want):
         return None, yd["why"]
     if yd["cond"] > 1e6:
         return None, "normal-matrix-cond-gt-1e6"
+    if yd["nonlinearity"] > 0.25:
+        return None, "model-nonlinear-over-one-sigma"
     sig = yd["sigma"]
     free = [n for n in names if n not in problem["fixed"]]
     if has["limited"]:
@@ -846,7 +850,9 @@ def compare_triple(ctx, case, vi, base, bres, sig_b, guards):
         return
 
     ptol, ctol = (1e-2, 1e-3) if mini == "iminuit" else (5e-2, 5e-3)
-    etol = 2e-2
+    # Minuit2's HESSE with strategy 1 (kafe2's setting) iterates its step sizes only until the second derivatives change by less
+    # than 5 % (MnStrategy: HessianG2Tolerance = 0.05, at most 3 cycles): exact for a parabolic cost, +-2.5 % in sigma otherwise
+    etol = 2e-2 if (mini == "scipy" or guards["parabolic"]) else 5e-2
     free_t = [i for i, n in enumerate(names_t) if n not in problem["fixed"]]
     fix_t = [i for i, n in enumerate(names_t) if n in problem["fixed"]]
     sig_t = np.array([sig_b.get(n, 0.0) for n in names_t]) * fac
@@ -1023,8 +1029,8 @@ def run_case(ctx, case):
     pd = dict(case["meta"]["truth"])
     pd.update(problem["fixed"])
     yd = yardstick(base.refs, names, problem["constraints"], problem["fixed"], pd)
-    if not yd["ok"] or yd["cond"] > 1e6:
-        ctx.discard("ill-posed:" + (yd.get("why") or "normal-matrix-cond-gt-1e6"))
+    if not yd["ok"] or yd["cond"] > 1e6 or yd["nonlinearity"] > 0.25:
+        ctx.discard("ill-posed:" + (yd.get("why") or ("normal-matrix-cond-gt-1e6" if yd["cond"] > 1e6 else "model-nonlinear-over-one-sigma")))
         return False
     # probe points before the fit
     base.prefit = []
@@ -1065,11 +1071,12 @@ def run_case(ctx, case):
     # yardstick at the base optimum
     pdo = dict(zip(names, bres["values"]))
     yo = yardstick(base.refs, names, problem["constraints"], problem["fixed"], pdo)
-    if not yo["ok"] or yo["cond"] > 1e7:
+    if not yo["ok"] or yo["cond"] > 1e7 or yo["nonlinearity"] > 0.5:
         ctx.discard("ill-posed-at-optimum")
         return False
     sig_b = yo["sigma"]
     guards = {"skip_uncertainties": None, "gof_sensitivity": 0.0}
+    guards["parabolic"] = all(r.model.linear and not r.has_x_source() and not any(s_["reference"] == "model" for s_ in r.sources) for r in base.refs)
     # first-order sensitivity of chi2 (= cost - ln det V) to the position of the optimum, per sigma (yardstick only)
     pvec = np.array([pdo[n] for n in names], dtype=float)
     for r in base.refs:
